@@ -994,7 +994,9 @@ class StateEngine(object):
         has_terminated = any("terminated" in r for r in all_branch_results.values())
 
         results_pending = False
-        for results in all_branch_results.values():
+        # (Iterate over a copy: cancelling a Task runs its callback, which may
+        # add the results of a Map or Parallel state not seen since a restart.)
+        for results in list(all_branch_results.values()):
             terminated = results.get("terminated")
             if has_terminated and (terminated or execution_ended):
                 result = results["results"]
